@@ -4,17 +4,17 @@ From HexVerif Require Import WMap Isa SimModel SimProofs.
 Import ListNotations.
 Local Open Scope Z_scope.
 
-(* offsets strictly ascending in file order *)
+(* offsets ascending in file order (adjacent entries may share an offset: an empty procedure) *)
 Fixpoint asc (tab : symtab) : Prop :=
   match tab with
-  | (_, o) :: r => match r with (_, o2) :: _ => o < o2 /\ asc r | [] => True end
+  | (_, o) :: r => match r with (_, o2) :: _ => o <= o2 /\ asc r | [] => True end
   | [] => True
   end.
 
 Lemma asc_tail x tab : asc (x :: tab) -> asc tab.
 Proof. destruct x as [n o]. destruct tab as [|[n2 o2] r]; cbn; tauto. Qed.
 
-Lemma asc_all_ge : forall tab n o, asc ((n, o) :: tab) -> Forall (fun p => o < snd p) tab.
+Lemma asc_all_ge : forall tab n o, asc ((n, o) :: tab) -> Forall (fun p => o <= snd p) tab.
 Proof.
   induction tab as [|[n2 o2] r IH]; intros n o H; [constructor|].
   cbn in H. destruct H as [H1 H2]. constructor; [exact H1|].
